@@ -42,7 +42,7 @@ ALLOWED_FUNCS = set(dir(math)) | {'float', 'max', 'min', 'sum', 'pow', 'abs', 'r
 ALIAS_RE = re.compile(r'(?<![A-Za-z0-9_])_\d+__[A-Za-z_0-9]*')
 
 PLACES = ['other_var', 'own_var', 'cashflow_eqn', 'product_term', 'cashflow_product', 'exogenous', 'global',
-          'asset_weight', 'ic_target', 'late_setrhs', 'global_two_names']
+          'asset_weight', 'ic_target', 'late_setrhs', 'global_two_names', 'global_name_clash', 'edit_returned_lists']
 POINTS = ['early', 'late', 'postcodes']
 VARS = ['Q', 'F', 'INC']
 SRCS = ['HH', 'GOV']
@@ -281,6 +281,20 @@ def build_history(config, point, var, src, places):
             m.AddGlobalEquation('TOTAL2', 'sum over two sectors', nm + ' + ' + nm2 + ' + ' + nm)
             other.AddVariable('XG2', 'exogenous with two embedded names', '0.')
             other.SetExogenous('XG2', '[' + nm + ', ' + nm2 + ', 1., 1., 1., 1.]')
+        elif p == 'global_name_clash':
+            # a model-level variable spelled like a LOCAL variable of the government (TaxRate lives in the tax-flow sector, T in
+            # several), read as a bare name by a sector that is processed later: it must stay the global, unqualified name
+            m.AddGlobalEquation('TaxRate', 'model-level parameter', '0.125')
+            m.AddGlobalEquation('Q', 'model-level parameter named like a sector variable', '3.5')
+            S['GOOD'].AddVariable('USEGLOBAL', 'reads two model-level names', 'TaxRate*100. + Q')
+            S['LAB'].AddVariable('USEGLOBAL2', 'reads a model-level name', 'Q*2')
+        elif p == 'edit_returned_lists':
+            # the caller edits every list the sectors hand out
+            for sec in S.values():
+                lst = sec.GetVariables()
+                del lst[:]
+                lst2 = sec.EquationBlock.GetEquationList()
+                lst2.append('BOGUS')
         elif p == 'asset_weight':
             S['HH'].GenerateAssetWeighting({'DEP': '0.2 + 0.*' + nm}, 'MON')
         elif p == 'ic_target':
